@@ -1,7 +1,8 @@
 /-
   C08 — Loop mode: the per-variable flags are nested (m ⇒ w ⇒ p), an unbounded variable has no
-  flag, and a bounded variable carries a choice object that is not infinite (model level).
-  Helper lemmas: Mwp/Lemmas/Misc08.lean.
+  flag, a bounded variable carries a choice object that is not infinite, and that object is SOUND:
+  every vector it accepts keeps the variable's own column AND the column of every variable flowing
+  into it free of ∞ (model level).  Helper lemmas: Mwp/Lemmas/Misc08.lean.
 -/
 import Mwp.Lemmas.Misc08
 namespace Mwp.Props.C08
@@ -10,18 +11,27 @@ open Mwp Mwp.Analysis Mwp.LoopAnalysis Mwp.Misc08
 /-- `get_result`: the m / w / p flags form a ladder -/
 theorem flags_nested (rel : Relation) (index : Nat) (v : String) (r : VRes)
     (h : getResult rel index v = .ok r) :
-    (r.isM = true → r.isW = true) ∧ (r.isW = true → r.isP = true) := by
-  obtain ⟨c, _, rfl | rfl | rfl⟩ := getResult_inv rel index v r h <;> simp
+    (r.isM = true → r.isW = true) ∧ (r.isW = true → r.isP = true) :=
+  ⟨(getResult_flags rel index v r h).1, (getResult_flags rel index v r h).2.1⟩
 
 theorem unbounded_flags (v : String) :
     (VRes.unbounded v).isM = false ∧ (VRes.unbounded v).isW = false ∧ (VRes.unbounded v).isP = false :=
   ⟨rfl, rfl, rfl⟩
 
-/-- a result of `get_result` always has the p flag and a choice object that is not infinite -/
+/-- a result of `get_result` with the p flag (i.e. not `unbounded`) carries a choice object that is
+    not infinite -/
 theorem getResult_choice_not_infinite (rel : Relation) (index : Nat) (v : String) (r : VRes)
-    (h : getResult rel index v = .ok r) :
-    ∃ c, r.choices = some c ∧ Choices.infinite c = false := by
-  obtain ⟨c, hc, rfl | rfl | rfl⟩ := getResult_inv rel index v r h <;> exact ⟨c, rfl, hc⟩
+    (h : getResult rel index v = .ok r) (hp : r.isP = true) :
+    ∃ c, r.choices = some c ∧ Choices.infinite c = false :=
+  (getResult_flags rel index v r h).2.2 hp
+
+/-- … and a result without the p flag is `unbounded`: no flag, no choice object -/
+theorem getResult_unbounded_or_bounded (rel : Relation) (index : Nat) (v : String) (r : VRes)
+    (h : getResult rel index v = .ok r) : r = VRes.unbounded v ∨ r.isP = true := by
+  obtain ⟨_, _, _, _, hr⟩ := getResult_inv rel index v r h
+  rcases hr with rfl | ⟨_, _, _, _, ⟨_, rfl⟩ | ⟨_, rfl⟩ | ⟨_, rfl⟩⟩
+  · exact .inl rfl
+  all_goals exact .inr rfl
 
 /-- every variable result of `maybeResult` has nested flags -/
 theorem maybeResult_flags_nested (rel : Relation) (index : Nat) (pick : Option (List Nat))
@@ -39,7 +49,30 @@ theorem maybeResult_bounded_has_choice (rel : Relation) (index : Nat) (pick : Op
   intro r hr hp
   rcases maybeResult_inv rel index pick rs h r hr with ⟨v, rfl⟩ | ⟨v, hv⟩
   · simp [VRes.unbounded] at hp
-  · exact getResult_choice_not_infinite rel index v r hv
+  · exact getResult_choice_not_infinite rel index v r hv hp
+
+/-- **The reported choice object is valid for the dependencies.**  At every vector `vec` the choice
+    object reported for `v` accepts, the column of `v` is free of ∞ AND so is the column of every
+    variable `u` that flows into `v` (`sources`: an `m`/`w`/`p` monomial in row `u` of the column
+    of `v`); moreover the flags mean what they say at `vec`: with the w flag the column of `v` has
+    no `p`, with the m flag it has neither `w` nor `p`.
+    Side conditions (as in C15 `choices_exact`): the delta lists `generate` is fed — those of the
+    `w`/`p`/∞ monomials of the column of `v`, those of the ∞ monomials of the columns of its
+    sources — are well formed for vectors of length `index`. -/
+theorem reported_choices_valid_for_dependencies (rel : Relation) (index : Nat) (v : String) (r : VRes)
+    (h : getResult rel index v = .ok r) (c : Choices.T) (hc : r.choices = some c)
+    (vec : List Nat) (hv : Choices.VecOK Gen.domain index vec) (hacc : Choices.isValid c vec = true)
+    (col : Nat) (hcol : rel.vars.idxOf? v = some col)
+    (hwf : ∀ s ∈ rel.colInfDeltas col [.w, .p], Choices.WFSeq Gen.domain index s)
+    (hwfs : ∀ u ∈ sources rel col, ∀ cu, rel.vars.idxOf? u = some cu →
+      ∀ s ∈ rel.colInfDeltas cu [], Choices.WFSeq Gen.domain index s) :
+    (∀ row ∈ rel.mat, (row.getD col Poly.zero).evalD vec ≠ .i) ∧
+    (∀ u ∈ sources rel col, ∀ cu, rel.vars.idxOf? u = some cu →
+      ∀ row ∈ rel.mat, (row.getD cu Poly.zero).evalD vec ≠ .i) ∧
+    (r.isW = true → ∀ row ∈ rel.mat, (row.getD col Poly.zero).evalD vec ≠ .p) ∧
+    (r.isM = true → ∀ row ∈ rel.mat,
+      (row.getD col Poly.zero).evalD vec = .o ∨ (row.getD col Poly.zero).evalD vec = .m) :=
+  getResult_sound rel index v r h c hc vec hv hacc col hcol hwf hwfs
 
 /-! ## non-vacuity: `while (x) { x = y + y; z = z * z; u = y; }` — `z` fails, `x` is w-bounded
     (third alternative only), `u`, `y` are m-bounded -/
@@ -58,11 +91,62 @@ example : ((inspectRel loop1).bind fun (rel, i, _) => getResult rel i "y").toOpt
 set_option maxRecDepth 8000 in
 example : ((inspectRel loop1).bind fun (rel, i, _) => getResult rel i "x").toOption.map
     (fun r => r.choices.map (fun c => c.valid)) = some (some [[[2], [0, 1, 2]]]) := by decide
+-- `z` alone: no rung — the variable stays unbounded (formerly an AssertionError)
+set_option maxRecDepth 8000 in
+example : ((inspectRel loop1).bind fun (rel, i, _) => getResult rel i "z").toOption.map
+    (fun r => (r.isM, r.isW, r.isP, r.choices.isSome)) = some (false, false, false, false) := by decide
 -- `maybeResult` succeeds with a mix of unbounded and bounded variables
 set_option maxRecDepth 8000 in
 example : ((inspectRel loop1).bind fun (rel, i, _) => maybeResult rel i (some [2, 0])).toOption.map
     (fun rs => rs.map fun r => (r.name, r.isM, r.isW, r.isP))
     = some [("z", false, false, false), ("u", true, true, true), ("x", false, true, true),
         ("y", true, true, true)] := by decide
+
+/-! a dependent variable loses a choice: `u` receives ∞ from itself under alternative 0 of
+    derivation index 0, and `v = u`.  The column of `v` alone has no ∞ anywhere, but the object
+    reported for `v` rejects `[0]`, where its source `u` fails. -/
+
+private def relDep : Relation :=
+  ⟨["u", "v"], [[[⟨.m, []⟩, ⟨.i, [(0, 0)]⟩], [⟨.m, []⟩]],
+                [[⟨.o, []⟩],                   [⟨.o, []⟩]]]⟩
+
+example : sources relDep 1 = ["u"] ∧ sources relDep 0 = [] := by decide
+-- the column of `v` on its own accepts every vector …
+example : (relDep.varEval Gen.domain 1 "v" [.w, .p]).toOption.map (fun c => c.valid) = some [[[0, 1, 2]]] := by
+  decide
+-- … the reported object does not: it is cut down to the vectors valid for `u`
+example : (getResult relDep 1 "v").toOption.map (fun r => (r.isM, r.isW, r.isP))
+    = some (true, true, true) := by decide
+example : (getResult relDep 1 "v").toOption.map (fun r => r.choices.map (fun c => c.valid))
+    = some (some [[[1, 2]]]) := by decide
+example : (getResult relDep 1 "v").toOption.map
+    (fun r => r.choices.map (fun c => (Choices.isValid c [0], Choices.isValid c [1])))
+    = some (some (false, true)) := by decide
+example : ((relDep.mat.map fun row => (row.getD 0 Poly.zero).evalD [0]),
+    (relDep.mat.map fun row => (row.getD 0 Poly.zero).evalD [1])) = ([.i, .o], [.m, .o]) := by decide
+-- the theorem applies to this relation at the accepted vector `[1]`
+example (r : VRes) (h : getResult relDep 1 "v" = .ok r) (c : Choices.T) (hc : r.choices = some c)
+    (hacc : Choices.isValid c [1] = true) :
+    ∀ u ∈ sources relDep 1, ∀ cu, relDep.vars.idxOf? u = some cu →
+      ∀ row ∈ relDep.mat, (row.getD cu Poly.zero).evalD [1] ≠ .i :=
+  (reported_choices_valid_for_dependencies relDep 1 "v" r h c hc [1] ⟨rfl, by decide⟩ hacc 1
+    (by decide) (by
+      intro s hs
+      have hl : relDep.colInfDeltas 1 [.w, .p] = [] := by decide
+      rw [hl] at hs; cases hs) (by
+      intro u hu cu hcu s hs
+      have hu' : u = "u" := by
+        have : sources relDep 1 = ["u"] := by decide
+        rw [this] at hu; simpa using hu
+      subst hu'
+      have : cu = 0 := by
+        have h0 : relDep.vars.idxOf? "u" = some 0 := by decide
+        rw [h0] at hcu; exact (Option.some.inj hcu).symm
+      subst this
+      have hl : relDep.colInfDeltas 0 [] = [[(0, 0)]] := by decide
+      rw [hl] at hs
+      simp only [List.mem_singleton] at hs
+      subst hs
+      exact ⟨by decide, by decide⟩)).2.1
 
 end Mwp.Props.C08
